@@ -360,9 +360,25 @@ func handleExtraFieldList(p *SelectPlan, stmt *ast.SelectStmt) {
 		}
 	}
 
+	hasWildCard := false
+	for i := 0; i < p.originColumnCount; i++ {
+		if stmt.Fields.Fields[i].WildCard != nil {
+			hasWildCard = true
+		}
+	}
+
 	for i := 0; i < len(p.orderByColumn); i++ {
 		p.orderByColumn[i] -= deleteNum
 		currColumnIndex := p.originColumnCount + len(p.groupByColumn) + i - deleteNum
+		// ORDER BY n sorts by the n-th selected column, not by the constant n
+		if pos, isPosition := stmt.Fields.Fields[currColumnIndex].Expr.(*ast.PositionExpr); isPosition {
+			if !hasWildCard && pos.N >= 1 && pos.N <= p.originColumnCount {
+				stmt.Fields.Fields = append(stmt.Fields.Fields[:currColumnIndex], stmt.Fields.Fields[currColumnIndex+1:]...)
+				p.orderByColumn[i] = pos.N - 1
+				deleteNum++
+			}
+			continue
+		}
 		field, isColumnExpr := stmt.Fields.Fields[currColumnIndex].Expr.(*ast.ColumnNameExpr)
 		if !isColumnExpr {
 			continue
